@@ -200,27 +200,56 @@ Proof.
   unfold deliver at 2. rewrite Hs. apply IH. exact Hs.
 Qed.
 
+(* the turns of the loop of _emit ([hand]): once an exception unwinds, no further turn does anything *)
+Lemma hand_all_stop emitfrom g depth n x m : forall l w s,
+  status_go s = false -> fold_left (hand emitfrom g depth n x m) l (w, s) = (w, s).
+Proof.
+  induction l as [|d t IH]; intros w s Hs; cbn [fold_left]; [reflexivity|].
+  rewrite hand_stop by exact Hs. apply IH. exact Hs.
+Qed.
+Lemma hand_raise_skips emitfrom g depth n x m : forall l w,
+  fold_left (hand emitfrom g depth n x m) l (w, SRaise) = (w, SRaise).
+Proof. intros. apply hand_all_stop. reflexivity. Qed.
+
+(* one turn: the hand-over [deliver_floor], or - for a child that left since the snapshot - the release alone *)
+Lemma hand_floor g emitfrom r depth n x m d w s w' s' G :
+  direct_graph g -> FloorSpec g emitfrom r -> status_go s = true -> (1 <= G)%Z -> (G <= cnt w r)%Z ->
+  hand emitfrom g depth n x m (w, s) d = (w', s') ->
+  (status_go s' = false -> (G <= cnt w' r)%Z /\ nfired w' r = nfired w r) /\
+  (status_go s' = true -> (G - occ_ref m r <= cnt w' r)%Z /\
+                          ((1 <= G - occ_ref m r)%Z -> nfired w' r = nfired w r)).
+Proof.
+  intros Hg HS Go HG Hc H. pose proof (occ_ref_nonneg m r) as Hm.
+  destruct (hand_cases emitfrom g depth n x m w s d) as [E|[_ [_ E]]]; rewrite E in H.
+  - eapply deliver_floor; eauto.
+  - injection H as <- <-. split; [intros X; rewrite Go in X; discriminate|]. intros _. split.
+    + destruct (Z_le_gt_dec 1 (G - occ_ref m r)) as [Hle|Hgt].
+      * destruct (release_floor w m r (G - occ_ref m r)%Z Hle ltac:(lia)) as [A2 _]. exact A2.
+      * rewrite release_cnt_eq. lia.
+    + intros Hle. destruct (release_floor w m r (G - occ_ref m r)%Z Hle ltac:(lia)) as [_ [B2 _]]. exact B2.
+Qed.
+
 (* all downstreams, with a floor F >= 1 kept to the end *)
-Lemma deliver_all_floor g emitfrom r depth n x m :
+Lemma hand_all_floor g emitfrom r depth n x m :
   direct_graph g -> FloorSpec g emitfrom r ->
   forall l w s w' s' F, (1 <= F)%Z -> (F + Z.of_nat (length l) * occ_ref m r <= cnt w r)%Z ->
-  fold_left (deliver emitfrom g depth n x m) l (w, s) = (w', s') ->
+  fold_left (hand emitfrom g depth n x m) l (w, s) = (w', s') ->
   (F <= cnt w' r)%Z /\ nfired w' r = nfired w r.
 Proof.
   intros Hg HS. pose proof (occ_ref_nonneg m r) as Hm.
   induction l as [|d t IH]; intros w s w' s' F HF Hc H; cbn [fold_left length] in *.
   - injection H as <- _. split; [lia | reflexivity].
   - destruct (status_go s) eqn:Go.
-    + destruct (deliver emitfrom g depth n x m (w, s) d) as [w1 s1] eqn:E1.
-      destruct (deliver_floor g emitfrom r depth n x m d w s w1 s1 (F + Z.of_nat (S (length t)) * occ_ref m r)%Z
+    + destruct (hand emitfrom g depth n x m (w, s) d) as [w1 s1] eqn:E1.
+      destruct (hand_floor g emitfrom r depth n x m d w s w1 s1 (F + Z.of_nat (S (length t)) * occ_ref m r)%Z
                   Hg HS Go ltac:(nia) Hc E1) as [P1 P2].
       destruct (status_go s1) eqn:Go1.
       * destruct (P2 eq_refl) as [A B].
         assert (Hc1 : (F + Z.of_nat (length t) * occ_ref m r <= cnt w1 r)%Z) by nia.
         destruct (IH w1 s1 w' s' F HF Hc1 H) as [A2 B2]. split; [exact A2|]. rewrite B2. apply B. nia.
-      * destruct (P1 eq_refl) as [A B]. rewrite deliver_stop in H by exact Go1. injection H as <- <-.
+      * destruct (P1 eq_refl) as [A B]. rewrite hand_all_stop in H by exact Go1. injection H as <- <-.
         split; [nia | exact B].
-    + unfold deliver at 2 in H. rewrite Go in H. rewrite deliver_stop in H by exact Go. injection H as <- <-.
+    + rewrite hand_stop in H by exact Go. rewrite hand_all_stop in H by exact Go. injection H as <- <-.
       split; [nia | reflexivity].
 Qed.
 
@@ -229,23 +258,23 @@ Proof.
   intros Hg. induction fuel as [|fuel IH]; intros depth d w y my w' s F HF Hc H; cbn [push] in H.
   - injection H as <- <-. split; [exact Hc | reflexivity].
   - destruct (retain_cnt w my (Z.of_nat (length (downs g w d))) r) as [R1 R2].
-    destruct (deliver_all_floor g _ r depth d y my Hg (IH (S depth)) (downs g w d) _ SOk w' s F HF
+    destruct (hand_all_floor g _ r depth d y my Hg (IH (S depth)) (downs g w d) _ SOk w' s F HF
                 ltac:(rewrite R1; lia) H) as [A B].
     split; [exact A|]. rewrite B. unfold nfired. rewrite R2. reflexivity.
 Qed.
 
 (* the failing emit: ends in SRaise => callback of r not scheduled, count r stays >= 1 *)
-Lemma deliver_all_raise g emitfrom r depth n x m :
+Lemma hand_all_raise g emitfrom r depth n x m :
   direct_graph g -> FloorSpec g emitfrom r -> (1 <= occ_ref m r)%Z ->
   forall l w s w', status_go s = true -> (Z.of_nat (length l) * occ_ref m r <= cnt w r)%Z ->
-  fold_left (deliver emitfrom g depth n x m) l (w, s) = (w', SRaise) ->
+  fold_left (hand emitfrom g depth n x m) l (w, s) = (w', SRaise) ->
   (1 <= cnt w' r)%Z /\ nfired w' r = nfired w r.
 Proof.
   intros Hg HS Hocc.
   induction l as [|d t IH]; intros w s w' Go Hc H; cbn [fold_left length] in *.
   - injection H as _ Hs. subst s. discriminate Go.
-  - destruct (deliver emitfrom g depth n x m (w, s) d) as [w1 s1] eqn:E1.
-    destruct (deliver_floor g emitfrom r depth n x m d w s w1 s1 (Z.of_nat (S (length t)) * occ_ref m r)%Z
+  - destruct (hand emitfrom g depth n x m (w, s) d) as [w1 s1] eqn:E1.
+    destruct (hand_floor g emitfrom r depth n x m d w s w1 s1 (Z.of_nat (S (length t)) * occ_ref m r)%Z
                 Hg HS Go ltac:(nia) Hc E1) as [P1 P2].
     destruct (status_go s1) eqn:Go1.
     + destruct (P2 eq_refl) as [A B].
@@ -253,7 +282,7 @@ Proof.
       * cbn [fold_left] in H. injection H as _ Hs. subst s1. discriminate Go1.
       * assert (Hc1 : (Z.of_nat (length (d2 :: t2)) * occ_ref m r <= cnt w1 r)%Z) by (cbn [length] in *; nia).
         destruct (IH w1 s1 w' Go1 Hc1 H) as [A2 B2]. split; [exact A2|]. rewrite B2. apply B. cbn [length]. nia.
-    + destruct (P1 eq_refl) as [A B]. rewrite deliver_stop in H by exact Go1. injection H as Hw _. subst w'.
+    + destruct (P1 eq_refl) as [A B]. rewrite hand_all_stop in H by exact Go1. injection H as Hw _. subst w'.
       split; [nia | exact B].
 Qed.
 
@@ -264,7 +293,7 @@ Theorem cb_never_for_failed g fuel n w x m w' r :
 Proof.
   intros Hg Hc Hocc H. destruct fuel as [|fuel]; cbn [push] in H; [discriminate|].
   destruct (retain_cnt w m (Z.of_nat (length (downs g w n))) r) as [R1 R2].
-  destruct (deliver_all_raise g _ r 0 n x m Hg (push_floor g r Hg fuel 1) Hocc (downs g w n) _ SOk w' eq_refl
+  destruct (hand_all_raise g _ r 0 n x m Hg (push_floor g r Hg fuel 1) Hocc (downs g w n) _ SOk w' eq_refl
               ltac:(rewrite R1; lia) H) as [A B].
   split; [exact A|]. rewrite B. unfold nfired. rewrite R2. reflexivity.
 Qed.
